@@ -108,6 +108,36 @@ def run_case(schema, name, checkers=None, ref=None):
 
 # ------------------------------------------------------------------------------------------------- driver
 
+def wide_schemas():
+    """directed schemas with MANY pattern occurrences (pattern numbers run over the whole file, so the tenth and later named
+    patterns / temporary occurrences get two-digit numbers); names stay short"""
+    def rule(rid, items, cons=None):
+        return {'id': rid, 'items': items, 'cons': cons or [], 'signers': []}
+    t3 = [['pat', '_'], ['pat', '_'], ['pat', '_']]
+    out = []
+    # >= 10 temporary occurrences before a constrained temporary pattern (the fillers start with distinct literals so that
+    # their pattern edges do not merge with the rules under test)
+    out.append({'lits': ['a', 'b', 'c'], 'rules': [
+        rule('#z', [['pat', '_p'], ['lit', 'a']]),
+        rule('#y1', [['lit', 'b']] + list(t3)), rule('#y2', [['lit', 'c']] + list(t3)),
+        rule('#y3', [['lit', 'c'], ['lit', 'c'], ['pat', '_'], ['pat', '_']]),
+        rule('#q', [['ref', '#z'], ['pat', '_t']], [[['_t', [['lit', 'b']]]]])]})
+    out.append({'lits': ['a', 'b', 'c'], 'rules': [
+        rule('#y1', [['lit', 'b']] + list(t3)), rule('#y2', [['lit', 'c']] + list(t3)),
+        rule('#y3', [['lit', 'c'], ['lit', 'c'], ['pat', '_'], ['pat', '_']]),
+        rule('#z', [['pat', '_p'], ['lit', 'a'], ['pat', '_t'], ['pat', '_u']], [[['_u', [['lit', 'b']]]]]),
+        rule('#q', [['lit', 'a'], ['pat', '_t'], ['pat', '_p']], [[['_t', [['lit', 'a'], ['lit', 'c']]]]])]})
+    # >= 10 named patterns, a constraint on the tenth (its number has the first one's number as decimal prefix)
+    out.append({'lits': ['a', 'b'], 'rules': [
+        rule('#n1', [['pat', 'pa'], ['pat', 'pb'], ['pat', 'pc']]),
+        rule('#n2', [['lit', 'a'], ['pat', 'pd'], ['pat', 'pe'], ['pat', 'pf']]),
+        rule('#n3', [['lit', 'b'], ['pat', 'pg'], ['pat', 'ph'], ['pat', 'pi']]),
+        rule('#w1', [['pat', 'pa'], ['pat', 'pj']], [[['pj', [['lit', 'b']]]]]),
+        rule('#w2', [['pat', 'pb'], ['lit', 'a'], ['pat', 'pk']], [[['pk', [['lit', 'a']]]]]),
+        rule('#w3', [['lit', 'a'], ['lit', 'a'], ['pat', 'pa'], ['pat', 'pl']], [[['pl', [['pat', 'pa']]]]])]})
+    return out
+
+
 def schema_for(seed, idx):
     rng = random.Random(seed * 1000003 + idx * 7919 + 11)
     return L.gen_schema(rng, max_rules=6, signing=(idx % 4 == 3), eq_type_pat_args=(idx % 5 == 0))
@@ -120,10 +150,11 @@ def run(tier: str, seed: int, shard: tuple[int, int]) -> dict:
     evaluations = 0
     samples = []
     total = N_SCHEMAS.get(tier, N_SCHEMAS['quick'])
-    for idx in range(total):
+    wide = wide_schemas()
+    for idx in range(-len(wide), total):
         if idx % n != k:
             continue
-        schema = schema_for(seed, idx)
+        schema = wide[idx + len(wide)] if idx < 0 else schema_for(seed, idx)
         text = L.render(schema)
         try:
             checkers = build(schema)
